@@ -257,6 +257,33 @@ Proof.
   rewrite Hsz in Hev, Herr. cbn [trigger_fire] in Hev, Herr. auto.
 Qed.
 
+(* C05: for EVERY trigger and roller - a roller that rotates and then reports failure leaves the appender in the
+   state of a successful append whenever the record was written (no Err, or an Err under a post-processing trigger);
+   under a pre-processing trigger that fired, the call returns Err, the rotation has happened, the writer slot is
+   empty and the record - which was NOT acknowledged - is not written.  So the stream invariant over the acknowledged
+   records (C05_stream_suffix_invariant) is that of the same history with working rollers. *)
+Theorem fail_after_is_append_or_unacknowledged : forall c chunks s, Good s ->
+  let r := append_op_fail_after c chunks s in
+  (snd r = false -> fst (fst r) = fst (append_op c chunks s)) /\
+  (snd r = true -> is_pre (trig c) = false -> fst (fst r) = fst (append_op c chunks s)) /\
+  (snd r = true -> is_pre (trig c) = true ->
+     files (fst (fst r)) = do_roll (roll_by c) (files (get_writer s)) /\ writer (fst (fst r)) = None /\
+     wrote (snd (fst r)) = []).
+Proof.
+  intros c chunks s HG r.
+  destruct (append_op_fail_after_spec c chunks s HG) as (_ & _ & _ & H). fold r in H.
+  destruct (is_pre (trig c)) eqn:Hpre.
+  - destruct H as (Hev & Herr & Hfire & Hno). split; [|split].
+    + intros E. apply Hno. rewrite <- Herr. exact E.
+    + intros _ X; discriminate.
+    + intros E _. rewrite Herr in E. destruct (Hfire E) as [F1 F2]. split; [exact F1|]. split; [exact F2|].
+      rewrite Hev, E. reflexivity.
+  - destruct H as (Hev & Herr & Hst). split; [|split].
+    + intros _. exact Hst.
+    + intros _ _. exact Hst.
+    + intros _ X; discriminate.
+Qed.
+
 (* ------------------------------------------------------------------ *)
 (* C17 with failing rolls                                              *)
 
